@@ -1,6 +1,1546 @@
-pub fn gen(_seed: u64, _thorough: bool) -> Vec<String> {
-    vec![]
+//! C01: hostile files never crash the reader (parse, layout, decode are total).
+//!
+//! case line (every token is needed to replay the case; see lean/DdsModel/DdsModel/Drv/C01.lean):
+//!
+//!   X <opt> <fl> <env> <prefix> <data> <op>*
+//!
+//!   <opt>     s | p | S | P            strict / permissive, capital = skip_magic_bytes
+//!   <fl>      - | <u64>                ParseOptions::file_len
+//!   <env>     <mode>[,c][,b<n>]        mode: n | h<k> | e<k> | i<k> | t<k>  (no fault / hard error at byte k /
+//!                                      reads at or beyond byte k return Ok(0) / one `Interrupted` at byte k /
+//!                                      one `Ok(0)` at byte k, only with L m r A operations);
+//!                                      c = `seek` clamps to the end of the file, b<n> = reads deliver <= n bytes
+//!   <prefix>  - | item(,item)*         the first bytes of the file: hex word (LE u32) | z<n> (n zero words) |
+//!                                      x<hex> (raw bytes)
+//!   <data>    - | <len>:<seed>         <len> more pseudo random bytes
+//!   <op>      L                        DataLayout::from_header(header)
+//!             m<limit>                 decoder.options.memory_limit = limit
+//!             r<c>[p] | r<c>:<w>:<h>   read_surface into colour c (0..11 = precision*4 + channels); image size =
+//!                                      size of the current surface (1x1 if none / if its buffer would exceed
+//!                                      16 MiB), `p` = row pitch 5 bytes larger than a row; or explicit size
+//!             q<c>:<ox>:<oy>:<w>:<h>   read_surface_rect
+//!             s | k                    skip_surface | skip_mipmaps
+//!             c<c> | c<c>:<w>:<h>      read_cube_map (image 4w x 3h of the main size, 1x1 if too large)
+//!             A<c>                     read_surface (as r<c>) until done / first error / 64 surfaces
+//!             p | z                    rewind_to_previous_surface | rewind_to_start (only if the data section is
+//!                                      <= i64::MAX bytes; otherwise not called: they document an `expect`)
+//!
+//! Operations are executed while the reader position is below 2^63.
+//!
+//! result line: `hdr=<header|err>@<pos> [new=<ok|err>] [fmt=<name|err> lay=<layout|err>] | <op>=<kind>@<pos> ... | cur=<..>`
+//!
+//! Oracle (no model involved): no panic, no hang (watchdog), no abort; a call during which the reader
+//! returned an error or `Ok(0)` for a non-empty buffer ends in `Err(Io)`; a full decode that returns `Ok` found
+//! at least `data_len` bytes at the reader position; a single-surface call that used the reader fails only
+//! with `Err(Io)`; the bytes between the rows of a padded view are not written; `Decoder::new_with_options`
+//! agrees with `Header::read` + `Decoder::from_header`.
+use crate::c09;
+use crate::common::*;
+use dds::header::*;
+use dds::*;
+use std::cell::RefCell;
+use std::io::{Read, Seek, SeekFrom};
+use std::rc::Rc;
+use std::sync::mpsc;
+use std::time::Duration;
+
+pub const CAP: u64 = 16 * 1024 * 1024;
+const BIGPOS: u64 = 1 << 63;
+const MAX_A: usize = 64;
+
+// ---------------------------------------------------------------------------------------------
+// fault injecting reader
+
+#[derive(Clone, Copy, Debug, PartialEq)]
+pub enum Mode {
+    None,
+    Hard(u64),
+    Eof(u64),
+    Intr(u64),
+    /// `Ok(0)` once, by the first read at or beyond this offset, although the stream goes on
+    EofOnce(u64),
 }
-pub fn run(_line: &str) -> Option<(String, Vec<String>)> {
-    None
+
+pub struct HReader {
+    pub data: Vec<u8>,
+    pub pos: u64,
+    pub mode: Mode,
+    pub clamp: bool,
+    pub chunk: u64,
+    intr_done: bool,
+    /// any `read`/`seek`/`stream_position` call since the last `reset_flags`
+    pub touched: bool,
+    /// an `Err` other than `Interrupted` was returned
+    pub reported_error: bool,
+    /// `Ok(0)` was returned for a non-empty buffer
+    pub eof_hit: bool,
+}
+impl HReader {
+    pub fn new(data: Vec<u8>, mode: Mode, clamp: bool, chunk: u64) -> Self {
+        HReader { data, pos: 0, mode, clamp, chunk, intr_done: false, touched: false, reported_error: false, eof_hit: false }
+    }
+    fn reset_flags(&mut self) {
+        self.touched = false;
+        self.reported_error = false;
+        self.eof_hit = false;
+    }
+    fn len(&self) -> u64 {
+        self.data.len() as u64
+    }
+}
+impl Read for HReader {
+    fn read(&mut self, buf: &mut [u8]) -> std::io::Result<usize> {
+        self.touched = true;
+        if buf.is_empty() {
+            return Ok(0);
+        }
+        let mut lim = self.len();
+        match self.mode {
+            Mode::Hard(k) => {
+                if self.pos >= k {
+                    self.reported_error = true;
+                    return Err(std::io::Error::new(std::io::ErrorKind::Other, "injected fault"));
+                }
+                lim = lim.min(k);
+            }
+            Mode::Eof(k) => lim = lim.min(k),
+            Mode::Intr(k) => {
+                if !self.intr_done {
+                    if self.pos >= k {
+                        self.intr_done = true;
+                        return Err(std::io::Error::new(std::io::ErrorKind::Interrupted, "interrupted"));
+                    }
+                    lim = lim.min(k);
+                }
+            }
+            Mode::EofOnce(k) => {
+                if !self.intr_done {
+                    if self.pos >= k {
+                        self.intr_done = true;
+                        self.eof_hit = true;
+                        return Ok(0);
+                    }
+                    lim = lim.min(k);
+                }
+            }
+            Mode::None => {}
+        }
+        if self.pos >= lim {
+            self.eof_hit = true;
+            return Ok(0);
+        }
+        let mut want = (buf.len() as u64).min(lim - self.pos);
+        if self.chunk > 0 {
+            want = want.min(self.chunk);
+        }
+        let (p, n) = (self.pos as usize, want as usize);
+        buf[..n].copy_from_slice(&self.data[p..p + n]);
+        self.pos += want;
+        Ok(n)
+    }
+}
+impl Seek for HReader {
+    fn seek(&mut self, from: SeekFrom) -> std::io::Result<u64> {
+        self.touched = true;
+        let target: i128 = match from {
+            SeekFrom::Start(n) => n as i128,
+            SeekFrom::Current(d) => self.pos as i128 + d as i128,
+            SeekFrom::End(d) => self.len() as i128 + d as i128,
+        };
+        if target < 0 || target > u64::MAX as i128 {
+            self.reported_error = true;
+            return Err(std::io::Error::new(std::io::ErrorKind::InvalidInput, "seek out of range"));
+        }
+        let target = target as u64;
+        if let Mode::Hard(k) = self.mode {
+            if target > k {
+                self.reported_error = true;
+                return Err(std::io::Error::new(std::io::ErrorKind::Other, "injected fault"));
+            }
+        }
+        let new = if self.clamp && target > self.len() { self.len().max(self.pos) } else { target };
+        self.pos = new;
+        Ok(new)
+    }
+    fn stream_position(&mut self) -> std::io::Result<u64> {
+        self.touched = true;
+        Ok(self.pos)
+    }
+}
+
+#[derive(Clone)]
+struct Shared(Rc<RefCell<HReader>>);
+impl Read for Shared {
+    fn read(&mut self, buf: &mut [u8]) -> std::io::Result<usize> {
+        self.0.borrow_mut().read(buf)
+    }
+}
+impl Seek for Shared {
+    fn seek(&mut self, from: SeekFrom) -> std::io::Result<u64> {
+        self.0.borrow_mut().seek(from)
+    }
+    fn stream_position(&mut self) -> std::io::Result<u64> {
+        self.0.borrow_mut().stream_position()
+    }
+}
+
+// ---------------------------------------------------------------------------------------------
+// case parsing
+
+fn hex_val(c: u8) -> Option<u8> {
+    match c {
+        b'0'..=b'9' => Some(c - b'0'),
+        b'a'..=b'f' => Some(c - b'a' + 10),
+        b'A'..=b'F' => Some(c - b'A' + 10),
+        _ => None,
+    }
+}
+
+pub fn parse_prefix(s: &str) -> Option<Vec<u8>> {
+    let mut v = vec![];
+    if s == "-" {
+        return Some(v);
+    }
+    for it in s.split(',') {
+        if let Some(n) = it.strip_prefix('z') {
+            let n: usize = n.parse().ok()?;
+            if n > 4096 {
+                return None;
+            }
+            v.extend(std::iter::repeat(0u8).take(4 * n));
+        } else if let Some(h) = it.strip_prefix('x') {
+            let h = h.as_bytes();
+            if h.len() % 2 != 0 {
+                return None;
+            }
+            for p in h.chunks(2) {
+                v.push(hex_val(p[0])? * 16 + hex_val(p[1])?);
+            }
+        } else {
+            if it.is_empty() || it.len() > 8 {
+                return None;
+            }
+            let w = u32::from_str_radix(it, 16).ok()?;
+            v.extend_from_slice(&w.to_le_bytes());
+        }
+    }
+    Some(v)
+}
+
+pub fn enc_prefix(bytes: &[u8]) -> String {
+    if bytes.is_empty() {
+        return "-".into();
+    }
+    let mut items: Vec<String> = vec![];
+    let mut z = 0usize;
+    let whole = bytes.len() / 4;
+    for i in 0..whole {
+        let w = u32::from_le_bytes([bytes[4 * i], bytes[4 * i + 1], bytes[4 * i + 2], bytes[4 * i + 3]]);
+        if w == 0 {
+            z += 1;
+        } else {
+            if z > 0 {
+                items.push(format!("z{z}"));
+                z = 0;
+            }
+            items.push(format!("{w:x}"));
+        }
+    }
+    if z > 0 {
+        items.push(format!("z{z}"));
+    }
+    let tail = &bytes[4 * whole..];
+    if !tail.is_empty() {
+        items.push(format!("x{}", tail.iter().map(|b| format!("{b:02x}")).collect::<String>()));
+    }
+    items.join(",")
+}
+
+fn data_bytes(len: usize, seed: u64) -> Vec<u8> {
+    let mut x = seed.wrapping_mul(0x9E37_79B9_7F4A_7C15) | 1;
+    let mut v = Vec::with_capacity(len);
+    while v.len() < len {
+        x ^= x >> 12;
+        x ^= x << 25;
+        x ^= x >> 27;
+        let y = x.wrapping_mul(0x2545_F491_4F6C_DD1D).to_le_bytes();
+        let take = (len - v.len()).min(8);
+        v.extend_from_slice(&y[..take]);
+    }
+    v
+}
+
+struct EnvSpec {
+    mode: Mode,
+    clamp: bool,
+    chunk: u64,
+}
+fn parse_env(s: &str) -> Option<EnvSpec> {
+    let mut it = s.split(',');
+    let m = it.next()?;
+    let mode = if m == "n" {
+        Mode::None
+    } else {
+        let k: u64 = m.get(1..)?.parse().ok()?;
+        match m.as_bytes()[0] {
+            b'h' => Mode::Hard(k),
+            b'e' => Mode::Eof(k),
+            b'i' => Mode::Intr(k),
+            b't' => Mode::EofOnce(k),
+            _ => return None,
+        }
+    };
+    let mut e = EnvSpec { mode, clamp: false, chunk: 0 };
+    for f in it {
+        if f == "c" {
+            e.clamp = true;
+        } else if let Some(n) = f.strip_prefix('b') {
+            e.chunk = n.parse().ok()?;
+        } else {
+            return None;
+        }
+    }
+    Some(e)
+}
+
+#[derive(Clone, Debug)]
+enum Op {
+    Layout,
+    Limit(usize),
+    Read { c: usize, pad: bool, size: Option<(u32, u32)> },
+    Rect { c: usize, ox: u32, oy: u32, w: u32, h: u32 },
+    Skip,
+    SkipMips,
+    Cube { c: usize, size: Option<(u32, u32)> },
+    All { c: usize },
+    RewPrev,
+    RewStart,
+}
+
+fn parse_colour(s: &str) -> Option<usize> {
+    let c: usize = s.parse().ok()?;
+    if c < 12 {
+        Some(c)
+    } else {
+        None
+    }
+}
+
+fn parse_op(s: &str) -> Option<Op> {
+    let b = s.as_bytes();
+    if b.is_empty() {
+        return None;
+    }
+    let rest = &s[1..];
+    let parts: Vec<&str> = rest.split(':').collect();
+    match b[0] {
+        b'L' if rest.is_empty() => Some(Op::Layout),
+        b'm' => Some(Op::Limit(rest.parse().ok()?)),
+        b'r' => {
+            if parts.len() == 1 {
+                if let Some(c) = parts[0].strip_suffix('p') {
+                    Some(Op::Read { c: parse_colour(c)?, pad: true, size: None })
+                } else {
+                    Some(Op::Read { c: parse_colour(parts[0])?, pad: false, size: None })
+                }
+            } else if parts.len() == 3 {
+                Some(Op::Read { c: parse_colour(parts[0])?, pad: false, size: Some((p_u32(parts[1])?, p_u32(parts[2])?)) })
+            } else {
+                None
+            }
+        }
+        b'q' if parts.len() == 5 => Some(Op::Rect {
+            c: parse_colour(parts[0])?,
+            ox: p_u32(parts[1])?,
+            oy: p_u32(parts[2])?,
+            w: p_u32(parts[3])?,
+            h: p_u32(parts[4])?,
+        }),
+        b's' if rest.is_empty() => Some(Op::Skip),
+        b'k' if rest.is_empty() => Some(Op::SkipMips),
+        b'c' => {
+            if parts.len() == 1 {
+                Some(Op::Cube { c: parse_colour(parts[0])?, size: None })
+            } else if parts.len() == 3 {
+                Some(Op::Cube { c: parse_colour(parts[0])?, size: Some((p_u32(parts[1])?, p_u32(parts[2])?)) })
+            } else {
+                None
+            }
+        }
+        b'A' => Some(Op::All { c: parse_colour(rest)? }),
+        b'p' if rest.is_empty() => Some(Op::RewPrev),
+        b'z' if rest.is_empty() => Some(Op::RewStart),
+        _ => None,
+    }
+}
+
+fn bpp(c: usize) -> u64 {
+    all_colors()[c].bytes_per_pixel() as u64
+}
+
+/// explicit image sizes must stay below the cap (else the case is rejected on both sides)
+fn op_ok(op: &Op) -> bool {
+    let fits = |c: usize, w: u32, h: u32| (w as u128) * (h as u128) * bpp(c) as u128 <= CAP as u128;
+    match op {
+        Op::Read { c, size: Some((w, h)), .. } => fits(*c, *w, *h),
+        Op::Rect { c, w, h, .. } => fits(*c, *w, *h),
+        Op::Cube { c, size: Some((w, h)) } => fits(*c, *w, *h),
+        _ => true,
+    }
+}
+
+// ---------------------------------------------------------------------------------------------
+// run
+
+fn dec_err_name(e: &DecodingError) -> String {
+    match e {
+        DecodingError::RectOutOfBounds => "RectOutOfBounds".into(),
+        DecodingError::UnexpectedSurfaceSize => "UnexpectedSurfaceSize".into(),
+        DecodingError::CannotSkipMipmapsInVolume => "CannotSkipMipmapsInVolume".into(),
+        DecodingError::NoMoreSurfaces => "NoMoreSurfaces".into(),
+        DecodingError::NotACubeMap => "NotACubeMap".into(),
+        DecodingError::MemoryLimitExceeded => "MemoryLimitExceeded".into(),
+        DecodingError::Layout(_) => "Layout".into(),
+        DecodingError::Format(_) => "Format".into(),
+        DecodingError::Header(_) => "Header".into(),
+        DecodingError::Io(_) => "Io".into(),
+        #[allow(unreachable_patterns)]
+        _ => "other".into(),
+    }
+}
+
+fn layout_err_name(e: &LayoutError) -> &'static str {
+    match e {
+        LayoutError::TooManyMipMaps(_) => "TooManyMipMaps",
+        LayoutError::MissingDepth => "MissingDepth",
+        LayoutError::ZeroDimension => "ZeroDimension",
+        LayoutError::ArraySizeTooBig(_) => "ArraySizeTooBig",
+        LayoutError::DataLayoutTooBig => "DataLayoutTooBig",
+        LayoutError::InvalidCubeMapFaces => "InvalidCubeMapFaces",
+        #[allow(unreachable_patterns)]
+        _ => "other",
+    }
+}
+
+fn fmt_layout(l: &DataLayout) -> String {
+    match l {
+        DataLayout::Texture(t) => format!("T:{}x{}:{}:{}", t.main().width(), t.main().height(), t.mipmaps(), t.data_len()),
+        DataLayout::Volume(v) => {
+            let m = v.main();
+            format!("V:{}x{}x{}:{}:{}", m.width(), m.height(), m.depth(), v.mipmaps(), v.data_len())
+        }
+        DataLayout::TextureArray(a) => {
+            let k = match a.kind() {
+                TextureArrayKind::Textures => "T".to_string(),
+                TextureArrayKind::CubeMaps => "C".to_string(),
+                TextureArrayKind::PartialCubeMap(f) => format!("P{}", f.bits()),
+            };
+            format!("A{}:{}:{}x{}:{}:{}", k, a.len(), a.size().width, a.size().height, a.mipmaps(), a.data_len())
+        }
+    }
+}
+
+thread_local! {
+    /// what the case was doing (reported with a panic)
+    static STAGE: RefCell<String> = RefCell::new(String::new());
+}
+fn stage(s: &str) {
+    STAGE.with(|x| {
+        let mut x = x.borrow_mut();
+        x.clear();
+        x.push_str(s);
+    });
+}
+
+struct Ctx {
+    rd: Rc<RefCell<HReader>>,
+    oracle: Vec<String>,
+}
+impl Ctx {
+    fn pos(&self) -> u64 {
+        self.rd.borrow().pos
+    }
+    fn remaining(&self) -> u64 {
+        let r = self.rd.borrow();
+        let mut lim = r.len();
+        match r.mode {
+            Mode::Hard(k) | Mode::Eof(k) => lim = lim.min(k),
+            _ => {}
+        }
+        lim.saturating_sub(r.pos)
+    }
+    fn reset(&self) {
+        self.rd.borrow_mut().reset_flags();
+    }
+    /// the generic part of the oracle for one call
+    fn check(&mut self, what: &str, r: &Result<(), DecodingError>, single_surface: bool) {
+        let (touched, rep, eof) = {
+            let r = self.rd.borrow();
+            (r.touched, r.reported_error, r.eof_hit)
+        };
+        let is_io = matches!(r, Err(DecodingError::Io(_)));
+        if (rep || eof) && !is_io {
+            self.oracle.push(format!(
+                "reader error not propagated: {what} returned {} although the reader reported {}",
+                match r {
+                    Ok(()) => "Ok".to_string(),
+                    Err(e) => format!("Err({})", dec_err_name(e)),
+                },
+                if rep { "an error" } else { "end of file" }
+            ));
+        }
+        if single_surface && touched && r.is_err() && !is_io {
+            self.oracle.push(format!(
+                "non-I/O error after the reader was used: {what} returned Err({})",
+                dec_err_name(r.as_ref().err().unwrap())
+            ));
+        }
+    }
+}
+
+fn res_name(r: &Result<(), DecodingError>) -> String {
+    match r {
+        Ok(()) => "ok".into(),
+        Err(e) => dec_err_name(e),
+    }
+}
+
+/// read_surface with the automatic / explicit image size; returns the result
+fn do_read(dec: &mut Decoder<Shared>, ctx: &mut Ctx, c: usize, pad: bool, size: Option<(u32, u32)>, what: &str) -> Result<(), DecodingError> {
+    let color = all_colors()[c];
+    let b = bpp(c);
+    let info = dec.surface_info().map(|i| (i.size(), i.data_len()));
+    let (w, h) = match size {
+        Some(s) => s,
+        None => match info {
+            Some((s, _)) if (s.width as u128) * (s.height as u128) * b as u128 <= CAP as u128 => (s.width, s.height),
+            _ => (1, 1),
+        },
+    };
+    let pad = if pad && w > 0 && h > 0 { 5usize } else { 0 };
+    let pitch = w as usize * b as usize + pad;
+    let mut buf = vec![0xA5u8; pitch * h as usize];
+    let remaining = ctx.remaining();
+    ctx.reset();
+    let r = {
+        let img = ImageViewMut::new_with(&mut buf, pitch, Size::new(w, h), color).expect("harness: view");
+        dec.read_surface(img)
+    };
+    ctx.check(what, &r, true);
+    if r.is_ok() {
+        if let Some((_, len)) = info {
+            if remaining < len {
+                ctx.oracle.push(format!(
+                    "truncated surface decoded as Ok: {what} needs {len} bytes, the stream had {remaining} at the reader position"
+                ));
+            }
+        }
+        if pad > 0 {
+            let row = w as usize * b as usize;
+            for y in 0..h as usize {
+                let from = y * pitch + row;
+                let to = if y + 1 == h as usize { buf.len() } else { (y + 1) * pitch };
+                if buf[from..to].iter().any(|x| *x != 0xA5) {
+                    ctx.oracle.push(format!("{what} wrote between the rows of a padded view (row {y})"));
+                    break;
+                }
+            }
+        }
+    }
+    r
+}
+
+fn fmt_cur(dec: &Decoder<Shared>) -> String {
+    match dec.surface_info() {
+        Some(i) => format!("{},{},{},{}", i.size().width, i.size().height, i.data_len(), if i.is_mipmap() { 1 } else { 0 }),
+        None => "done".into(),
+    }
+}
+
+fn run_case(line: &str) -> Option<(String, Vec<String>)> {
+    let t = toks(line);
+    if t.len() < 6 || t[0] != "X" {
+        return None;
+    }
+    let opts = c09::Opts::parse(t[1], t[2])?.to_options();
+    let env = parse_env(t[3])?;
+    let mut bytes = parse_prefix(t[4])?;
+    if t[5] != "-" {
+        let (l, s) = t[5].split_once(':')?;
+        let l: usize = l.parse().ok()?;
+        if l > (CAP as usize) * 4 {
+            return None;
+        }
+        bytes.extend(data_bytes(l, s.parse().ok()?));
+    }
+    let ops: Vec<Op> = t[6..].iter().map(|s| parse_op(s)).collect::<Option<Vec<_>>>()?;
+    if !ops.iter().all(op_ok) {
+        return None;
+    }
+    // a transient end of file is only combined with full reads (then an `Io` result means it was consumed)
+    if let Mode::EofOnce(_) = env.mode {
+        if !ops.iter().all(|o| matches!(o, Op::Layout | Op::Limit(_) | Op::Read { .. } | Op::All { .. })) {
+            return None;
+        }
+    }
+
+    let mut out: Vec<String> = vec![];
+    let mut oracle: Vec<String> = vec![];
+
+    // ---- Header::read on its own reader
+    stage("Header::read");
+    let mut hr = HReader::new(bytes.clone(), env.mode, env.clamp, env.chunk);
+    let hres = Header::read(&mut hr, &opts);
+    if (hr.reported_error || hr.eof_hit) && !matches!(hres, Err(HeaderError::Io(_))) {
+        oracle.push(format!(
+            "reader error not propagated: Header::read returned {} although the reader reported {}",
+            match &hres {
+                Ok(_) => "Ok".to_string(),
+                Err(e) => c09::fmt_err(e),
+            },
+            if hr.reported_error { "an error" } else { "end of file" }
+        ));
+    }
+    let header = match &hres {
+        Ok(h) => {
+            out.push(format!("hdr={}@{}", c09::fmt_header(h), hr.pos));
+            Some(h.clone())
+        }
+        Err(e) => {
+            out.push(format!("hdr={}@{}", c09::fmt_err(e), hr.pos));
+            None
+        }
+    };
+
+    // ---- Decoder::new_with_options on a fresh reader
+    stage("Decoder::new_with_options");
+    let rd = Rc::new(RefCell::new(HReader::new(bytes, env.mode, env.clamp, env.chunk)));
+    let dres = Decoder::new_with_options(Shared(rd.clone()), &opts);
+    let mut ctx = Ctx { rd: rd.clone(), oracle };
+    match (&hres, &dres) {
+        (Err(e), Err(DecodingError::Header(e2))) if c09::fmt_err(e) == c09::fmt_err(e2) => {}
+        (Err(e), other) => ctx.oracle.push(format!(
+            "Decoder::new_with_options disagrees with Header::read: {} vs {}",
+            c09::fmt_err(e),
+            match other {
+                Ok(_) => "Ok".to_string(),
+                Err(e) => dec_err_name(e),
+            }
+        )),
+        (Ok(_), Err(DecodingError::Header(_))) | (Ok(_), Err(DecodingError::Io(_))) => {
+            ctx.oracle.push("Decoder::new_with_options fails with a header/IO error although Header::read succeeded".into())
+        }
+        _ => {}
+    }
+    if let Some(h) = &header {
+        // the two steps of new_with_options, separately
+        match Format::from_header(h) {
+            Ok(f) => {
+                let name = c09::format_name(f);
+                match DataLayout::from_header_with(h, f.into()) {
+                    Ok(l) => out.push(format!("fmt={} lay={}", name, fmt_layout(&l))),
+                    Err(e) => out.push(format!("fmt={} lay=err:{}", name, layout_err_name(&e))),
+                }
+                match &dres {
+                    Ok(d) => {
+                        if d.format() != f || d.header() != h {
+                            ctx.oracle.push("Decoder::new_with_options: header/format differ from Header::read + Format::from_header".into());
+                        }
+                    }
+                    Err(DecodingError::Layout(_)) => {}
+                    Err(e) => ctx.oracle.push(format!("Decoder::new_with_options: unexpected Err({})", dec_err_name(e))),
+                }
+            }
+            Err(e) => {
+                let n = match e {
+                    FormatError::UnsupportedDxgiFormat(_) => "UnsupportedDxgiFormat",
+                    FormatError::UnsupportedFourCC(_) => "UnsupportedFourCC",
+                    FormatError::UnsupportedPixelFormat => "UnsupportedPixelFormat",
+                    #[allow(unreachable_patterns)]
+                    _ => "other",
+                };
+                out.push(format!("fmt=err:{n}"));
+                if !matches!(dres, Err(DecodingError::Format(_))) {
+                    ctx.oracle.push("Decoder::new_with_options: expected a format error".into());
+                }
+            }
+        }
+    }
+    let mut dec = dres.ok();
+    out.push("|".into());
+
+    // ---- operations
+    for (i, op) in ops.iter().enumerate() {
+        let what = format!("op {} `{}`", i, t[6 + i]);
+        stage(&what);
+        if let Op::Layout = op {
+            match &header {
+                Some(h) => out.push(format!("L={}", c09::fmt_layout(h))),
+                None => out.push("L=-".into()),
+            }
+            continue;
+        }
+        let d = match dec.as_mut() {
+            Some(d) => d,
+            None => {
+                out.push("-".into());
+                continue;
+            }
+        };
+        if ctx.pos() >= BIGPOS {
+            out.push("stop-bigpos".into());
+            break;
+        }
+        let small = d.layout().data_len() <= i64::MAX as u64;
+        let r: String = match op {
+            Op::Layout => unreachable!(),
+            Op::Limit(l) => {
+                d.options.memory_limit = *l;
+                "m".into()
+            }
+            Op::Read { c, pad, size } => res_name(&do_read(d, &mut ctx, *c, *pad, *size, &what)),
+            Op::All { c } => {
+                let mut n = 0;
+                let mut last = "ok".to_string();
+                while n < MAX_A && !d.is_done() && ctx.pos() < BIGPOS {
+                    let r = do_read(d, &mut ctx, *c, false, None, &what);
+                    if r.is_ok() {
+                        n += 1;
+                    } else {
+                        last = res_name(&r);
+                        break;
+                    }
+                }
+                format!("{n}:{last}")
+            }
+            Op::Rect { c, ox, oy, w, h } => {
+                let color = all_colors()[*c];
+                let mut buf = vec![0u8; (*w as u64 * *h as u64 * bpp(*c)) as usize];
+                ctx.reset();
+                let img = ImageViewMut::new(&mut buf, Size::new(*w, *h), color).expect("harness: view");
+                let r = d.read_surface_rect(img, Offset::new(*ox, *oy));
+                ctx.check(&what, &r, true);
+                res_name(&r)
+            }
+            Op::Skip => {
+                ctx.reset();
+                let r = d.skip_surface();
+                ctx.check(&what, &r, true);
+                res_name(&r)
+            }
+            Op::SkipMips => {
+                ctx.reset();
+                let r = d.skip_mipmaps();
+                ctx.check(&what, &r, true);
+                res_name(&r)
+            }
+            Op::Cube { c, size } => {
+                let color = all_colors()[*c];
+                let (w, h) = match size {
+                    Some(s) => *s,
+                    None => {
+                        let m = d.main_size();
+                        let (w4, h3) = (m.width as u64 * 4, m.height as u64 * 3);
+                        if w4 <= u32::MAX as u64 && h3 <= u32::MAX as u64 && (w4 as u128) * (h3 as u128) * (bpp(*c) as u128) <= CAP as u128 {
+                            (w4 as u32, h3 as u32)
+                        } else {
+                            (1, 1)
+                        }
+                    }
+                };
+                let mut buf = vec![0u8; (w as u64 * h as u64 * bpp(*c)) as usize];
+                ctx.reset();
+                let img = ImageViewMut::new(&mut buf, Size::new(w, h), color).expect("harness: view");
+                let r = d.read_cube_map(img);
+                ctx.check(&what, &r, false);
+                res_name(&r)
+            }
+            Op::RewPrev => {
+                if small {
+                    ctx.reset();
+                    let r = d.rewind_to_previous_surface();
+                    ctx.check(&what, &r, false);
+                    res_name(&r)
+                } else {
+                    "skip".into()
+                }
+            }
+            Op::RewStart => {
+                if small {
+                    ctx.reset();
+                    let r = d.rewind_to_start();
+                    ctx.check(&what, &r, false);
+                    res_name(&r)
+                } else {
+                    "skip".into()
+                }
+            }
+        };
+        out.push(format!("{}@{}", r, ctx.pos()));
+    }
+    stage("end");
+    out.push("|".into());
+    match &dec {
+        Some(d) => out.push(format!("cur={}", fmt_cur(d))),
+        None => out.push("cur=-".into()),
+    }
+    Some((out.join(" "), ctx.oracle))
+}
+
+// ---------------------------------------------------------------------------------------------
+// watchdog: every case runs on a worker thread; the caller waits with a time-out
+
+type CaseResult = Option<(String, Vec<String>)>;
+struct Worker {
+    tx: mpsc::Sender<String>,
+    rx: mpsc::Receiver<CaseResult>,
+}
+fn spawn_worker() -> Worker {
+    let (tx, wrx) = mpsc::channel::<String>();
+    let (wtx, rx) = mpsc::channel::<CaseResult>();
+    std::thread::Builder::new()
+        .name("c01-worker".into())
+        .stack_size(16 << 20)
+        .spawn(move || {
+            for line in wrx {
+                let l = line.clone();
+                let r = std::panic::catch_unwind(move || run_case(&l));
+                let r = match r {
+                    Ok(r) => r,
+                    Err(e) => {
+                        let st = STAGE.with(|s| s.borrow().clone());
+                        Some(("panic".to_string(), vec![format!("panic during {}: {}", st, panic_msg(&e))]))
+                    }
+                };
+                if wtx.send(r).is_err() {
+                    break;
+                }
+            }
+        })
+        .expect("spawn worker");
+    Worker { tx, rx }
+}
+thread_local! {
+    static WORKER: RefCell<Option<Worker>> = RefCell::new(None);
+    static HANGS: RefCell<u32> = RefCell::new(0);
+}
+fn watchdog() -> Duration {
+    let ms = std::env::var("C01_WATCHDOG_MS").ok().and_then(|s| s.parse().ok()).unwrap_or(20_000u64);
+    Duration::from_millis(ms)
+}
+
+pub fn run(line: &str) -> Option<(String, Vec<String>)> {
+    WORKER.with(|w| {
+        let mut w = w.borrow_mut();
+        if w.is_none() {
+            *w = Some(spawn_worker());
+        }
+        let wk = w.as_ref().unwrap();
+        if wk.tx.send(line.to_string()).is_err() {
+            *w = None;
+            return Some(("worker-died".into(), vec!["abort: the worker thread died".into()]));
+        }
+        match wk.rx.recv_timeout(watchdog()) {
+            Ok(r) => r,
+            Err(mpsc::RecvTimeoutError::Timeout) => {
+                // the stuck thread cannot be killed: abandon it, and give up on the process if it happens again
+                *w = None;
+                let n = HANGS.with(|h| {
+                    *h.borrow_mut() += 1;
+                    *h.borrow()
+                });
+                if n >= 3 {
+                    eprintln!("C01 watchdog: third hang in this process, aborting");
+                    std::process::abort();
+                }
+                Some(("hang".into(), vec![format!("hang: no result within {} ms", watchdog().as_millis())]))
+            }
+            Err(mpsc::RecvTimeoutError::Disconnected) => {
+                *w = None;
+                Some(("worker-died".into(), vec!["abort: the worker thread died".into()]))
+            }
+        }
+    })
+}
+
+// ---------------------------------------------------------------------------------------------
+// generation
+
+const MAGIC: u32 = 0x2053_4444;
+
+/// file image of a header (magic + raw header)
+fn file_of(h: &Header) -> Vec<u8> {
+    let mut v = Vec::new();
+    h.write(&mut v).unwrap();
+    v
+}
+
+fn data_len_of(h: &Header) -> Option<u64> {
+    c09::data_len(h)
+}
+
+fn dx10(w: u32, h: u32, d: Option<u32>, mips: u32, dxgi: u32, dim: u32, misc: u32, arr: u32, alpha: u32) -> Header {
+    Header::Dx10(Dx10Header {
+        width: w,
+        height: h,
+        depth: d,
+        mipmap_count: std::num::NonZeroU32::new(mips.max(1)).unwrap(),
+        dxgi_format: DxgiFormat::try_from(dxgi).unwrap(),
+        resource_dimension: ResourceDimension::try_from(dim).unwrap(),
+        misc_flag: MiscFlags::from_bits_retain(misc),
+        array_size: arr,
+        alpha_mode: AlphaMode::try_from(alpha).unwrap(),
+    })
+}
+fn dx9_fourcc(w: u32, h: u32, d: Option<u32>, mips: u32, caps2: u32, cc: u32) -> Header {
+    Header::Dx9(Dx9Header {
+        width: w,
+        height: h,
+        depth: d,
+        mipmap_count: std::num::NonZeroU32::new(mips.max(1)).unwrap(),
+        caps2: Caps2::from_bits_retain(caps2),
+        pixel_format: Dx9PixelFormat::FourCC(FourCC(cc)),
+    })
+}
+fn dx9_mask(w: u32, h: u32, d: Option<u32>, mips: u32, caps2: u32, row: usize) -> Header {
+    let r = c09::MASK_ROWS[row % c09::MASK_ROWS.len()];
+    Header::Dx9(Dx9Header {
+        width: w,
+        height: h,
+        depth: d,
+        mipmap_count: std::num::NonZeroU32::new(mips.max(1)).unwrap(),
+        caps2: Caps2::from_bits_retain(caps2),
+        pixel_format: Dx9PixelFormat::Mask(MaskPixelFormat {
+            flags: PixelFormatFlags::from_bits_retain(r.0),
+            rgb_bit_count: RgbBitCount::try_from(r.1).unwrap(),
+            r_bit_mask: r.2,
+            g_bit_mask: r.3,
+            b_bit_mask: r.4,
+            a_bit_mask: r.5,
+        }),
+    })
+}
+
+/// the base files of the structured sweeps: every layout kind x every pixel-info family
+fn templates() -> Vec<Header> {
+    vec![
+        dx10(5, 3, None, 1, 28, 3, 0, 1, 1),             // RGBA8 texture
+        dx9_fourcc(9, 6, None, 4, 0, 0x31545844),        // DXT1 with mips
+        dx10(4, 4, None, 3, 98, 3, 4, 1, 0),             // BC7 cube with mips
+        dx10(6, 5, Some(3), 2, 61, 4, 0, 1, 0),          // R8 volume
+        dx10(7, 2, None, 1, 103, 3, 0, 2, 0),            // NV12 array of 2
+        dx9_mask(3, 3, None, 1, 0x200 | 0x1400, 12),     // masked BGRA partial cube (2 faces)
+        dx10(9, 1, None, 1, 107, 2, 0, 1, 0),            // YUY2 1D
+        dx10(11, 7, None, 2, 138, 3, 0, 1, 0),           // ASTC 5x4
+        dx9_fourcc(4, 4, Some(2), 1, 0x200000, 0x55354342), // BC5U volume (DX9)
+        dx10(17, 3, None, 1, 66, 3, 0, 1, 0),            // R1
+        dx10(4, 4, None, 1, 2, 3, 0, 3, 0),              // RGBA32F array of 3
+        dx10(8, 8, None, 4, 77, 3, 0, 1, 2),             // BC3 premultiplied
+        dx9_fourcc(5, 5, None, 1, 0xFE00, 116),          // RGBA32F cube via D3DFMT four CC
+        dx10(3, 2, None, 1, 104, 3, 0, 1, 0),            // P010
+        dx10(2, 2, None, 1, 110, 3, 0, 1, 0),            // valid DXGI, pixel info, no decoder (NV11)
+        dx10(2, 2, None, 1, 131, 3, 0, 1, 0),            // valid DXGI, no pixel info
+        dx9_mask(6, 2, None, 2, 0, 8),                   // B8G8R8 24 bit
+        dx9_fourcc(6, 2, None, 1, 0, 0x59565955),        // UYVY
+        dx10(16, 16, None, 5, 95, 3, 4, 2, 0),           // BC6H cube array with mips
+        dx10(1, 1, Some(1), 1, 10, 4, 0, 1, 0),          // 1x1x1 volume RGBA16F
+    ]
+}
+
+fn boundary_values() -> Vec<u32> {
+    let mut v: Vec<u64> = vec![0, 1];
+    for k in 1..=32u32 {
+        v.push((1u64 << k) - 1);
+        if k < 32 {
+            v.push(1u64 << k);
+        }
+    }
+    v.sort();
+    v.dedup();
+    v.into_iter().map(|x| x as u32).collect()
+}
+
+fn set_word(bytes: &mut [u8], i: usize, v: u32) {
+    bytes[4 * i..4 * i + 4].copy_from_slice(&v.to_le_bytes());
+}
+fn get_word(bytes: &[u8], i: usize) -> u32 {
+    u32::from_le_bytes([bytes[4 * i], bytes[4 * i + 1], bytes[4 * i + 2], bytes[4 * i + 3]])
+}
+
+const OPS_PROBE: &str = "L r3 q0:0:0:1:1 s k c3 A5 p z r0p";
+
+struct Gen {
+    out: Vec<String>,
+    rng: Rng,
+    n: u64,
+}
+impl Gen {
+    /// options rotate deterministically: strict/permissive x file_len {None, right, +1, -1, arbitrary}
+    fn opt_fl(&mut self, file_len: u64, skip: bool) -> (String, String) {
+        self.n += 1;
+        let perm = self.n % 3 != 0;
+        let o = match (perm, skip) {
+            (false, false) => "s",
+            (true, false) => "p",
+            (false, true) => "S",
+            (true, true) => "P",
+        };
+        let fl = match (self.n / 3) % 6 {
+            0 => "-".to_string(),
+            1 | 2 => file_len.to_string(),
+            3 => (file_len + 1).to_string(),
+            4 => file_len.saturating_sub(1).to_string(),
+            _ => match self.rng.below(6) {
+                0 => "0".to_string(),
+                1 => u64::MAX.to_string(),
+                2 => self.rng.below(200).to_string(),
+                3 => (file_len + self.rng.below(5000)).to_string(),
+                4 => (1u64 << self.rng.below(64)).to_string(),
+                _ => self.rng.next().to_string(),
+            },
+        };
+        (o.to_string(), fl)
+    }
+    fn push(&mut self, opt: &str, fl: &str, env: &str, prefix: &[u8], data: Option<(usize, u64)>, ops: &str) {
+        let d = match data {
+            Some((l, s)) => format!("{l}:{s}"),
+            None => "-".into(),
+        };
+        self.out.push(format!("X {opt} {fl} {env} {} {d} {ops}", enc_prefix(prefix)).trim_end().to_string());
+    }
+    /// a hostile header: data of a small arbitrary length, the probing operation list
+    fn hostile(&mut self, file: &[u8]) {
+        let dl = match self.rng.below(4) {
+            0 => 0,
+            1 => self.rng.below(16) as usize,
+            2 => self.rng.below(300) as usize,
+            _ => 64,
+        };
+        let total = (file.len() + dl) as u64;
+        let (o, fl) = self.opt_fl(total, false);
+        let seed = self.rng.below(1000);
+        self.push(&o, &fl, "n", file, if dl > 0 { Some((dl, seed)) } else { None }, OPS_PROBE);
+    }
+}
+
+fn colour_ops(limits: &[usize], colours: &[usize]) -> String {
+    let mut ops: Vec<String> = vec![];
+    for l in limits {
+        ops.push(format!("m{l}"));
+        for c in colours {
+            ops.push(format!("A{c}"));
+            ops.push("z".into());
+        }
+    }
+    ops.join(" ")
+}
+
+fn random_ops(rng: &mut Rng, n: usize, dims: (u32, u32)) -> String {
+    let mut ops: Vec<String> = vec![];
+    for _ in 0..n {
+        let c = rng.below(12);
+        let d = |rng: &mut Rng, m: u32| -> u32 {
+            match rng.below(8) {
+                0 => 0,
+                1 => m,
+                2 => m + 1,
+                3 => u32::MAX,
+                4 => 1 << 31,
+                _ => rng.below(m as u64 + 1) as u32,
+            }
+        };
+        ops.push(match rng.below(16) {
+            0 | 1 | 2 => format!("r{c}"),
+            3 => format!("r{c}p"),
+            4 => format!("r{c}:{}:{}", rng.below(dims.0 as u64 + 2), rng.below(dims.1 as u64 + 2)),
+            5 | 6 | 7 => {
+                let (ox, oy) = (d(rng, dims.0), d(rng, dims.1));
+                let w = rng.below(dims.0 as u64 + 2) as u32;
+                let h = rng.below(dims.1 as u64 + 2) as u32;
+                format!("q{c}:{ox}:{oy}:{w}:{h}")
+            }
+            8 => "s".into(),
+            9 => "k".into(),
+            10 => format!("c{c}"),
+            11 => "p".into(),
+            12 => "z".into(),
+            13 => format!("m{}", *rng.pick(&[0usize, 1, 16, 100, 4096, 65536, 33 * 1024 * 1024, usize::MAX])),
+            14 => format!("A{c}"),
+            _ => format!("c{c}:{}:{}", 4 * dims.0, 3 * dims.1),
+        });
+    }
+    ops.join(" ")
+}
+
+/// a small decodable header of every kind for `format`
+fn small_header(rng: &mut Rng, f: Format) -> Header {
+    let w = rng.range(1, 21) as u32;
+    let h = rng.range(1, 21) as u32;
+    let base = match rng.below(8) {
+        0 => Header::new_cube_map(w, w, f),
+        1 => Header::new_volume(w, h, rng.range(1, 4) as u32, f),
+        _ => Header::new_image(w, h, f),
+    };
+    let base = match rng.below(4) {
+        0 => base.with_mipmaps(),
+        1 => base.with_mipmap_count(rng.range(1, 4) as u32),
+        _ => base,
+    };
+    match base {
+        Header::Dx10(mut d) if !d.is_volume() && rng.chance(1, 5) => {
+            d.array_size = rng.range(0, 3) as u32;
+            Header::Dx10(d)
+        }
+        Header::Dx9(mut d) if d.caps2.bits() & 0x200 != 0 && rng.chance(1, 2) => {
+            d.caps2 = Caps2::from_bits_retain(0x200 | ((rng.below(64) as u32) << 10));
+            Header::Dx9(d)
+        }
+        b => b,
+    }
+}
+
+fn env_random(rng: &mut Rng, file_len: u64) -> String {
+    let k = match rng.below(4) {
+        0 => rng.below(150),
+        _ => rng.below(file_len + 2),
+    };
+    let mut s = match rng.below(8) {
+        0 | 1 | 2 => "n".to_string(),
+        3 | 4 => format!("h{k}"),
+        5 | 6 => format!("e{k}"),
+        _ => format!("i{k}"),
+    };
+    if rng.chance(1, 4) {
+        s.push_str(",c");
+    }
+    match rng.below(5) {
+        0 => s.push_str(",b1"),
+        1 => s.push_str(",b7"),
+        2 => s.push_str(",b4096"),
+        _ => {}
+    }
+    s
+}
+
+pub fn gen(seed: u64, thorough: bool) -> Vec<String> {
+    let mut g = Gen { out: vec![], rng: Rng::new(seed ^ 0xC01), n: 0 };
+    let bv = boundary_values();
+    let bset = boundary_u32();
+    let tmpl = templates();
+    let dxgi_valid = c09::valid_dxgi_codes();
+    let formats = all_formats();
+
+    // ---- (a1) every u32 header word of every template at 0 / 1 / 2^k / 2^k-1 / MAX
+    let n_t = if thorough { tmpl.len() } else { 12 };
+    for h in tmpl.iter().take(n_t) {
+        let file = file_of(h);
+        for i in 0..file.len() / 4 {
+            for v in &bv {
+                let mut f = file.clone();
+                set_word(&mut f, i, *v);
+                g.hostile(&f);
+            }
+        }
+    }
+
+    // ---- (a2) all DXGI codes 0..=255 (162 valid) and invalid ones, as texture / cube / volume / array
+    let shapes: [(u32, u32, u32, Option<u32>); 5] = [(3, 0, 1, None), (3, 4, 1, None), (4, 0, 1, Some(2)), (3, 0, 3, None), (2, 0, 1, None)];
+    for code in (0u32..=255).chain([256, 257, 1 << 8 | 28, 65536 + 71, 1 << 31, u32::MAX]) {
+        for (si, (dim, misc, arr, depth)) in shapes.iter().enumerate() {
+            if !thorough && si >= 3 && code % 4 != 0 {
+                continue;
+            }
+            let mut file = file_of(&dx10(5, 3, *depth, 2, 28, *dim, *misc, *arr, (code % 5) as u32));
+            set_word(&mut file, 32, code);
+            if *misc == 4 {
+                set_word(&mut file, 3, 3); // square faces
+                set_word(&mut file, 4, 3);
+            }
+            // enough data for small layouts
+            let (o, fl) = g.opt_fl(file.len() as u64 + 4096, false);
+            let c = (code as usize + si) % 12;
+            let ops = format!("L A{c} z r{} q{c}:1:1:2:1 s k c{c} p", (c + 5) % 12);
+            g.push(&o, &fl, "n", &file, Some((4096, code as u64)), &ops);
+        }
+    }
+
+    // ---- (a3) four CCs: known, D3DFMT numbers 0..=130, random
+    let mut ccs: Vec<u32> = c09::KNOWN_FOURCC.to_vec();
+    ccs.extend(0..=130u32);
+    for _ in 0..(if thorough { 3000 } else { 200 }) {
+        let r = g.rng.next() as u32;
+        ccs.push(if g.rng.chance(1, 2) { r } else { (*g.rng.pick(c09::KNOWN_FOURCC)) ^ (1 << g.rng.below(32)) });
+    }
+    for (i, cc) in ccs.iter().enumerate() {
+        let caps2 = [0u32, 0xFE00, 0x200000, 0x200 | 0x400][i % 4];
+        let mut file = file_of(&dx9_fourcc(6, 6, if caps2 == 0x200000 { Some(2) } else { None }, 1 + (i as u32 % 3), caps2, 0x31545844));
+        set_word(&mut file, 21, *cc);
+        if i % 7 == 0 {
+            set_word(&mut file, 20, 0); // no FOURCC flag: permissive repair path
+            set_word(&mut file, 22, [0u32, 32, 16][i % 3]);
+        }
+        let c = i % 12;
+        let (o, fl) = g.opt_fl(file.len() as u64 + 2048, false);
+        g.push(&o, &fl, "n", &file, Some((2048, i as u64)), &format!("L A{c} z q{c}:0:0:6:6 s k c{c}"));
+    }
+
+    // ---- (a4) the mask table and perturbations of it
+    for (ri, _) in c09::MASK_ROWS.iter().enumerate() {
+        let file = file_of(&dx9_mask(5, 4, None, 2, 0, ri));
+        let c = ri % 12;
+        let ops = format!("L A{c} z r{}p q{c}:1:1:3:2", (c + 3) % 12);
+        let (o, fl) = g.opt_fl(file.len() as u64 + 512, false);
+        g.push(&o, &fl, "n", &file, Some((512, ri as u64)), &ops);
+        let n_p = if thorough { 160 } else { 24 };
+        for p in 0..n_p {
+            let mut f = file.clone();
+            // flip one bit of flags / bit count / a mask, or set the bit count to a boundary value
+            let wi = 20 + [0usize, 2, 3, 4, 5, 6][p % 6];
+            let v = get_word(&f, wi);
+            let nv = if p % 5 == 4 { *g.rng.pick(&[0u32, 8, 16, 24, 32, 64, 1, 255, u32::MAX]) } else { v ^ (1 << g.rng.below(32)) };
+            set_word(&mut f, wi, nv);
+            let (o, fl) = g.opt_fl(f.len() as u64 + 512, false);
+            g.push(&o, &fl, "n", &f, Some((512, p as u64)), &ops);
+        }
+    }
+
+    // ---- (a5) resource kinds, caps, flags
+    for caps2hi in 0..64u32 {
+        for (cube, vol) in [(true, false), (true, true), (false, true), (false, false)] {
+            if !cube && caps2hi % 8 != 0 {
+                continue;
+            }
+            let caps2 = (caps2hi << 10) | if cube { 0x200 } else { 0 } | if vol { 0x200000 } else { 0 };
+            for depth_flag in [false, true] {
+                let mut file = file_of(&dx9_mask(3, 3, Some(2), 2, caps2, 13));
+                if !depth_flag {
+                    let fl2 = get_word(&file, 2) & !0x800000;
+                    set_word(&mut file, 2, fl2);
+                }
+                let (o, fl) = g.opt_fl(file.len() as u64 + 1024, false);
+                g.push(&o, &fl, "n", &file, Some((1024, caps2 as u64)), "L c3 A0 z c7:12:9 s k r4 k k p");
+            }
+        }
+    }
+    for dim in 0..=6u32 {
+        for misc in [0u32, 4, 1, 5, 0xFFFF_FFFF, 0xFFFF_FFFB] {
+            for arr in [0u32, 1, 2, 6, 7, 255, 715827882, 715827883, 1 << 31, u32::MAX] {
+                for depth in [None, Some(0u32), Some(3)] {
+                    if !thorough && g.rng.chance(1, 2) {
+                        continue;
+                    }
+                    let mut file = file_of(&dx10(4, 4, depth, 2, 71, 3, 0, 1, 0));
+                    set_word(&mut file, 33, dim);
+                    set_word(&mut file, 34, misc);
+                    set_word(&mut file, 35, arr);
+                    set_word(&mut file, 36, g.rng.below(9) as u32);
+                    let (o, fl) = g.opt_fl(file.len() as u64 + 256, false);
+                    g.push(&o, &fl, "n", &file, Some((256, arr as u64)), "L A3 c3 s k r0 q3:0:0:4:4 p z");
+                }
+            }
+        }
+    }
+    // mip count x flags / caps
+    for mips in [0u32, 1, 2, 5, 6, 7, 8, 31, 32, 33, 254, 255, 256, 257, 65535, 1 << 31, u32::MAX] {
+        for flags in [0x1007u32, 0x21007, 0x0, 0xFFFF_FFFF] {
+            for caps in [0x1000u32, 0x401008, 0x8, 0x400000, 0] {
+                let mut file = file_of(&dx10(33, 17, None, 1, 28, 3, 0, 1, 0));
+                set_word(&mut file, 7, mips);
+                set_word(&mut file, 2, flags);
+                set_word(&mut file, 27, caps);
+                let (o, fl) = g.opt_fl(file.len() as u64 + 3000, false);
+                g.push(&o, &fl, "n", &file, Some((3000, mips as u64)), "L A3 z s s k r7 p p");
+            }
+        }
+    }
+
+    // ---- (a6) DX10 extension present / absent / mismatched
+    for h in tmpl.iter().take(if thorough { tmpl.len() } else { 8 }) {
+        let file = file_of(h);
+        let is10 = file.len() == 148;
+        let mut variants: Vec<Vec<u8>> = vec![];
+        if is10 {
+            variants.push(file[..128].to_vec()); // announced but missing
+            let mut f = file.clone();
+            set_word(&mut f, 20, 0); // FOURCC flag gone: the extension becomes data
+            variants.push(f);
+            let mut f = file.clone();
+            set_word(&mut f, 21, 0x31545844); // DXT1: the extension becomes data
+            variants.push(f);
+            let mut f = file.clone();
+            set_word(&mut f, 20, 0x40); // RGB flag with four CC DX10
+            set_word(&mut f, 22, 32);
+            variants.push(f);
+        } else {
+            let mut f = file.clone();
+            set_word(&mut f, 20, 4);
+            set_word(&mut f, 21, 0x30315844); // announces an extension that is not there
+            variants.push(f.clone());
+            f.extend_from_slice(&[28, 0, 0, 0, 3, 0, 0, 0, 0, 0, 0, 0, 1, 0, 0, 0, 0, 0, 0, 0]);
+            variants.push(f.clone());
+            f.truncate(140);
+            variants.push(f);
+            let mut f = file.clone();
+            set_word(&mut f, 20, 0);
+            set_word(&mut f, 21, 0x30315844); // DX10 without the flag (F5)
+            set_word(&mut f, 22, 0);
+            variants.push(f);
+        }
+        for v in variants {
+            for _ in 0..2 {
+                g.hostile(&v);
+            }
+        }
+    }
+
+    // ---- (a7) random multi-field headers
+    let n_rand = if thorough { 1_500_000 } else { 100_000 };
+    for i in 0..n_rand {
+        let h = &tmpl[i % tmpl.len()];
+        let mut f = file_of(h);
+        let nw = f.len() / 4;
+        let k = 1 + g.rng.below(4) as usize;
+        for _ in 0..k {
+            let wi = match g.rng.below(10) {
+                0..=5 => *g.rng.pick(&[1usize, 2, 3, 4, 6, 7, 19, 20, 21, 22, 27, 28]),
+                6..=7 if nw > 32 => 32 + g.rng.below(5) as usize,
+                _ => g.rng.below(nw as u64) as usize,
+            };
+            let v = match g.rng.below(6) {
+                0 if wi == 32 => *g.rng.pick(&dxgi_valid),
+                1 if wi == 21 => *g.rng.pick(c09::KNOWN_FOURCC),
+                2 => get_word(&f, wi) ^ (1 << g.rng.below(32)),
+                _ => any_u32(&mut g.rng, &bset),
+            };
+            set_word(&mut f, wi, v);
+        }
+        g.hostile(&f);
+    }
+
+    // ---- (b) byte level mutations of valid small files, (c) truncations / extensions, (d) options
+    let n_files = if thorough { 300 } else { 30 };
+    let mut small_files: Vec<(Vec<u8>, u64, usize)> = vec![]; // header image, data length, colour
+    for i in 0..n_files {
+        let (_, f) = formats[(i * 7) % formats.len()];
+        let h = if i < tmpl.len() && i % 2 == 0 { tmpl[i].clone() } else { small_header(&mut g.rng, f) };
+        if let Some(dl) = data_len_of(&h) {
+            if dl <= (if thorough { 1350 } else { 6000 }) {
+                small_files.push((file_of(&h), dl, i % 12));
+            }
+        }
+    }
+    for (fi, (hb, dl, c)) in small_files.iter().enumerate() {
+        let total = hb.len() as u64 + dl;
+        let dl = *dl as usize;
+        let ops_full = format!("L A{c} z A{} k c{c}", (c + 4) % 12);
+        // (c) every truncation offset: the file is cut at every byte
+        let step = if thorough || total < 400 { 1 } else { 1 + total / 400 };
+        let mut cut = 0u64;
+        while cut <= total {
+            let (o, fl) = g.opt_fl(total, false);
+            if (cut as usize) <= hb.len() {
+                g.push(&o, &fl, "n", &hb[..cut as usize], None, &ops_full);
+            } else {
+                g.push(&o, &fl, "n", hb, Some((cut as usize - hb.len(), fi as u64)), &ops_full);
+            }
+            cut += step;
+        }
+        // extensions
+        for extra in [1usize, 3, 4, 1000] {
+            let (o, fl) = g.opt_fl(total, false);
+            g.push(&o, &fl, "n", hb, Some((dl + extra, fi as u64)), &ops_full);
+        }
+        // (b) byte sets and bit flips in the header
+        let every = if thorough { fi % 10 == 0 } else { fi < 3 };
+        let n_mut = if every { hb.len() * 4 } else { 60 };
+        for m in 0..n_mut {
+            let (off, val) = if every { (m / 4, [0x00u8, 0xFF, 0x80, 0x7F][m % 4]) } else { (g.rng.below(hb.len() as u64) as usize, *g.rng.pick(&[0x00u8, 0xFF, 0x80, 0x7F])) };
+            let mut f = hb.clone();
+            f[off] = val;
+            let (o, fl) = g.opt_fl(total, false);
+            g.push(&o, &fl, "n", &f, Some((dl, fi as u64)), &ops_full);
+        }
+        let n_flip = if every { hb.len() * 8 } else { 80 };
+        for m in 0..n_flip {
+            let bit = if every { m } else { g.rng.below(hb.len() as u64 * 8) as usize };
+            let mut f = hb.clone();
+            f[bit / 8] ^= 1 << (bit % 8);
+            let (o, fl) = g.opt_fl(total, false);
+            g.push(&o, &fl, "n", &f, Some((dl, fi as u64)), &ops_full);
+        }
+        // (d) the ParseOptions matrix on the intact file and on the file without magic
+        for skip in [false, true] {
+            for with_magic in [true, false] {
+                let pre: &[u8] = if with_magic { hb } else { &hb[4..] };
+                let tl = pre.len() as u64 + dl as u64;
+                for (perm, fl) in [
+                    (false, None),
+                    (true, None),
+                    (true, Some(tl)),
+                    (true, Some(tl + 1)),
+                    (true, Some(tl.saturating_sub(1))),
+                    (true, Some(tl + 4)),
+                    (true, Some(tl.saturating_sub(4))),
+                    (true, Some(0)),
+                    (true, Some(127)),
+                    (true, Some(128)),
+                    (true, Some(148)),
+                    (true, Some(u64::MAX)),
+                    (false, Some(tl + 1)),
+                ] {
+                    let o = match (perm, skip) {
+                        (false, false) => "s",
+                        (true, false) => "p",
+                        (false, true) => "S",
+                        (true, true) => "P",
+                    };
+                    let fl = fl.map(|x| x.to_string()).unwrap_or("-".into());
+                    g.push(o, &fl, "n", pre, Some((dl, fi as u64)), &ops_full);
+                }
+            }
+        }
+        // (f) a fault at every byte of the file (hard error, EOF, Interrupted)
+        let fstep = if (thorough && fi < 60) || total < 300 { 1 } else { 1 + total / (if thorough { 100 } else { 300 }) };
+        let mut k = 0u64;
+        while k <= total {
+            for m in ["h", "e", "i"] {
+                if !thorough && fi >= 4 && m != "h" {
+                    continue;
+                }
+                let env = format!("{m}{k}{}", ["", ",c", ",b1", ",b7"][(k as usize + fi) % 4]);
+                g.push("s", "-", &env, hb, Some((dl, fi as u64)), &format!("A{c} z r{c} q{c}:0:0:1:1 s"));
+            }
+            k += fstep;
+        }
+    }
+
+    // ---- (e) decode scenarios: every format, small surfaces, every colour x memory limit, random operations
+    let n_sc = if thorough { 150 } else { 25 };
+    for (fi, (_, f)) in formats.iter().enumerate() {
+        for s in 0..n_sc {
+            let h = small_header(&mut g.rng, *f);
+            let dl = match data_len_of(&h) {
+                Some(d) if d <= 200_000 => d as usize,
+                _ => continue,
+            };
+            let hb = file_of(&h);
+            let total = (hb.len() + dl) as u64;
+            let seed = (fi * 100 + s) as u64;
+            let (w, hh) = (h.width(), h.height());
+            // every surface into each of the 12 colours with limits {0, small, default}
+            if s == 0 {
+                let all: Vec<usize> = (0..12).collect();
+                g.push("s", "-", "n", &hb, Some((dl, seed)), &colour_ops(&[0, 700, 33 * 1024 * 1024], &all));
+            }
+            // truncated / exact / oversized data with random operations and random faults
+            let dlen = match g.rng.below(6) {
+                0 => dl,
+                1 => dl.saturating_sub(1),
+                2 => g.rng.below(dl as u64 + 1) as usize,
+                3 => dl + 1 + g.rng.below(40) as usize,
+                4 => 0,
+                _ => dl,
+            };
+            let env = env_random(&mut g.rng, total);
+            let n_ops = 4 + g.rng.below(12) as usize;
+            let ops = random_ops(&mut g.rng, n_ops, (w, hh));
+            let (o, fl) = g.opt_fl(total, false);
+            g.push(&o, &fl, &env, &hb, if dlen > 0 { Some((dlen, seed)) } else { None }, &ops);
+            // rect decodes of every colour
+            let c = (fi + s) % 12;
+            let rx = g.rng.below(w as u64) as u32;
+            let ry = g.rng.below(hh as u64) as u32;
+            let rw = 1 + g.rng.below((w - rx) as u64) as u32;
+            let rh = 1 + g.rng.below((hh - ry) as u64) as u32;
+            let env = env_random(&mut g.rng, total);
+            g.push(
+                "s",
+                "-",
+                &env,
+                &hb,
+                Some((dl, seed)),
+                &format!("m{} q{c}:{rx}:{ry}:{rw}:{rh} p q{}:{rx}:{ry}:{rw}:{rh} p q{c}:{rx}:{ry}:0:{rh} p r{c}p", [33 * 1024 * 1024usize, 0, 64, 4096][s % 4], (c + 7) % 12),
+            );
+        }
+    }
+
+    // ---- (e3) lines longer than the 64 KiB line buffer, with all their data
+    for (w, h, dxgi) in [
+        (5000u32, 2u32, 2u32), // RGBA32F: 80 000 bytes per line
+        (70000, 1, 61),        // R8
+        (66000, 3, 61),
+        (16385, 2, 28),        // RGBA8, one pixel over 64 KiB
+        (16384, 2, 28),        // exactly 64 KiB
+        (70000, 5, 71),        // BC1: 140 000 bytes per block line
+        (40000, 3, 103),       // NV12
+        (33000, 2, 107),       // YUY2
+        (600000, 1, 66),       // R1
+        (21846, 2, 6),         // RGB32F
+    ] {
+        let h0 = dx10(w, h, None, 1, dxgi, 3, 0, 1, 0);
+        if let Some(dl) = data_len_of(&h0) {
+            let file = file_of(&h0);
+            let c = (w as usize) % 12;
+            let ops = format!("A{c} z m0 r{c} m100000 r{} m33000000 q{c}:{}:0:7:{h} p q3:0:{}:{w}:1 p r{}p", (c + 4) % 12, w - 9, h - 1, (c + 8) % 12);
+            g.push("s", "-", "n", &file, Some((dl as usize, w as u64)), &ops);
+            g.push("s", "-", "n,b4096", &file, Some((dl as usize - 1, w as u64)), &ops);
+            g.push("s", "-", &format!("h{}", 148 + dl / 2), &file, Some((dl as usize, w as u64)), &ops);
+        }
+    }
+
+    // ---- (f2) a transient end of file inside plane 1 / a line of a surface, file longer than the surface
+    for (fi, (_, f)) in formats.iter().enumerate() {
+        for s in 0..(if thorough { 40 } else { 6 }) {
+            let w = g.rng.range(1, 12) as u32;
+            let hh = g.rng.range(1, 12) as u32;
+            let h0 = Header::new_image(w, hh, *f);
+            let dl = match data_len_of(&h0) {
+                Some(d) => d,
+                None => continue,
+            };
+            let hb = file_of(&h0);
+            let e1 = match formats[fi].0 {
+                "NV12" => 1,
+                "P010" | "P016" => 2,
+                _ => 0,
+            };
+            // bi-planar: one byte before the end of plane 1
+            let k = hb.len() as u64 + if s % 2 == 1 && e1 > 0 { w as u64 * hh as u64 * e1 - 1 } else { g.rng.below(dl + 1) };
+            let c = (fi + s) % 12;
+            let env = format!("t{k}{}", ["", ",b1", ",b7"][s % 3]);
+            g.push("s", "-", &env, &hb, Some((2 * dl as usize + 40, fi as u64)), &format!("r{c} r{c} A{}", (c + 1) % 12));
+        }
+    }
+
+    // ---- (e2) surfaces too large to decode: parsed, laid out, skipped
+    for (w, h, dxgi, mips, arr) in [
+        (65535u32, 65535u32, 28u32, 1u32, 1u32),
+        (u32::MAX, u32::MAX, 61, 1, 1),
+        (u32::MAX, u32::MAX, 2, 1, 1),
+        (1 << 31, 1 << 31, 61, 1, 1),
+        (1 << 31, 1 << 31, 61, 2, 1),
+        (1 << 31, 1 << 30, 61, 1, 3),
+        (3037000500, 3037000499, 61, 1, 1),
+        (u32::MAX, u32::MAX, 71, 32, 1),
+        (u32::MAX, 1, 103, 1, 2),
+        (1 << 16, 1 << 16, 98, 17, 6),
+        (40000, 40000, 104, 3, 1),
+        (4096, 4096, 28, 13, 1),
+        (2049, 2047, 71, 1, 2),
+        (1, u32::MAX, 66, 1, 1),
+        (1073741823, 1073741825, 2, 1, 1), // 2^64 - 16 bytes: a skip count that is negative as i64
+        (1073741823, 1073741825, 2, 1, 0),
+        (2147483647, 2147483649, 74, 1, 1), // BC2: 2^64 - 16 bytes
+        (1073741825, 1431655766, 61, 1, 1), // 4w and 3h wrap to 4 and 2
+    ] {
+        for misc in [0u32, 4] {
+            let file = file_of(&dx10(w, h, None, mips, dxgi, 3, misc, arr, 0));
+            for ops in ["L s s s s s", "L c3:4:2 k s", "L k c0:4:2", "L r3 q3:0:0:1:1 q0:5:5:2:2 s k k c3 A0", "L k s p z s s s p p", "L q3:4294967295:4294967295:1:1 q3:0:0:0:0 q7:1:1:0:5 s"] {
+                let (o, fl) = g.opt_fl(file.len() as u64, false);
+                g.push(&o, &fl, "n", &file, Some((100, 1)), ops);
+                g.push(&o, &fl, "n,c", &file, Some((100, 1)), ops);
+            }
+        }
+    }
+    g.out
 }
